@@ -501,6 +501,12 @@ def run_l3(ctx, params):
     if i == j:
         return
     with ctx.notracing():
+        from statemachine.signature import SignatureAdapter
+
+        clear = getattr(SignatureAdapter.from_callable, "clear_cache", None)
+        if clear is not None:
+            clear()  # every path is a complete history: nothing cached by earlier paths of this process
+    with ctx.notracing():
         fns = [make_shared(L3_SIGS[i], i), make_shared(L3_SIGS[j], j)]
     for which, (sig, fn) in enumerate(zip((L3_SIGS[i], L3_SIGS[j]), fns)):
         wrapped = callable_method(fn)
